@@ -296,7 +296,17 @@ fn step(st: &mut State, src: &mut Src) -> Result<(), Fail> {
             let m = m_at(&st.models[s], &path).cloned();
             ensure!(c.is_some() == m.is_some(), "C15/result-mismatch/pointer", "pointer({pd}) is_some={} but the model says {}", c.is_some(), m.is_some());
             if let (Some(c), Some(m)) = (c, m) {
-                st.slots[to] = c;
+                // plain assignment, `clone_from` into whatever the slot holds (it may reuse the receiver's
+                // buffers), or `clone_from` through a Vec of values
+                match src.below(3) {
+                    0 => st.slots[to] = c,
+                    1 => st.slots[to].clone_from(&c),
+                    _ => {
+                        let mut two = vec![std::mem::take(&mut st.slots[to]), Value::new_null()];
+                        two.clone_from(&vec![c.clone(), c]);
+                        st.slots[to] = two.swap_remove(0);
+                    }
+                }
                 st.models[to] = m;
                 st.shared = true;
             }
@@ -620,7 +630,9 @@ fn step(st: &mut State, src: &mut Src) -> Result<(), Fail> {
                     marr!().extend(vec![um, M::U64(1), M::Str("e".into())]);
                 }
                 30 => {
-                    let j = i + src.below(3);
+                    // forward, empty and reversed ranges, inside and beyond the length (one argument byte)
+                    let k = src.below(6);
+                    let j = if k < 3 { i + k } else { i.saturating_sub(k - 2) };
                     name = format!("slot{s}{pd}.extend_from_within({i}..{j})");
                     let got = real(|| a.extend_from_within(i..j), |_| "ok".into());
                     let v = marr!();
